@@ -24,6 +24,10 @@ class Undecided(Exception):
     """The code left the subset the jet algebra can decide."""
 
 
+class OrderExhausted(Undecided):
+    """a derivative of an order-0 jet was requested: the scenario's jets are too short."""
+
+
 class NeedResample(Exception):
     """The random point is unsuitable (non-residue under sqrt etc.)."""
 
@@ -323,7 +327,7 @@ class J:
         if self.o == INF:
             return J(self.F, INF, {})
         if self.o <= 0:
-            raise Undecided('jet order exhausted (derivative of an order-0 jet)')
+            raise OrderExhausted('jet order exhausted (derivative of an order-0 jet)')
         red = self.F.red
         c = {}
         for m, v in self.c.items():
